@@ -463,3 +463,17 @@ MUTANTS += [
     m("c03-mesh-eq-ignores-n", ["C03"], M, "return self.region == other.region and all(self.n == other.n)", "return self.region == other.region and any(self.n == other.n)"),
     m("c03-region-eq-ignores-pmax", ["C03"], R, "                np.array_equal(self.pmin, other.pmin)\n                and np.array_equal(self.pmax, other.pmax)", "                np.array_equal(self.pmin, other.pmin)\n                and np.array_equal(self.pmin, other.pmin)"),
 ]
+
+MUTANTS += [
+    # ------------------------------------------------------------------ C02 dtype / Line details, C01 dispatch
+    m("c02-full-drops-dtype", ["C02"], F, "return np.full((*mesh.n, nvdim), val, dtype=dtype)", "return np.full((*mesh.n, nvdim), val)"),
+    m("c02-default-dtype-min", ["C02"], F, "dtype = dtype or max(np.asarray(val).dtype, np.float64)", "dtype = dtype or min(np.asarray(val).dtype, np.float64)"),
+    m("c02-setter-drops-dtype", ["C02"], F, "self._array = self._as_array(val, self.mesh, self.nvdim, dtype=self.dtype)", "self._array = self._as_array(val, self.mesh, self.nvdim, dtype=None)"),
+    m("c02-sentinel-component", ["C02"], F, "for idx in np.argwhere(np.isnan(array[..., 0])):", "for idx in np.argwhere(np.isnan(array[..., -1:])):"),
+    m("c02-line-rows", ["C02"], LN, "values = np.array(values).reshape((points.shape[0], -1))", "values = np.array(values).reshape((-1, points.shape[0])).T"),
+    m("c02-line-point-column", ["C02"], LN, "            self.data[column] = points[..., i]\n", "            self.data[column] = points[..., -i - 1]\n"),
+    m("c02-getattr-unit", ["C02"], F, "                nvdim=1,\n                value=attr_array,\n                unit=self.unit,", "                nvdim=1,\n                value=attr_array,"),
+    m("c01-init-dispatch", ["C01"], M, "if region is not None and p1 is None and p2 is None:", "if region is not None and p1 is None or p2 is None:"),
+    m("c01-index-type", ["C01"], M, "if any(not isinstance(i, numbers.Integral) for i in index):", "if all(not isinstance(i, numbers.Integral) for i in index):"),
+    m("c01-contains-other", ["C01"], R, "            return other.pmin in self and other.pmax in self\n\n        return False", "            return other.pmin in self and other.pmax in self\n\n        return True"),
+]
